@@ -173,8 +173,6 @@ def _slot_chars(cx, tag, kind, variant, ncomment):
     # the body must not contain the terminator "*/"
     for x, y in zip(body, body[1:]):
         cx.assume(z3.Not(z3.And(_t(x) == ord("*"), _t(y) == ord("/"))))
-    if body:
-        cx.assume(_t(body[-1]) != ord("*"))  # "...*" + "*/" would still terminate correctly, but keep the body clean
     tail = [0x0A] if variant == "blockcomment" else [0x20]
     return [ord("/"), ord("*")] + body + [ord("*"), ord("/")] + tail
 
